@@ -510,7 +510,42 @@ func mkConcat(x, y value) value {
 	if yok && yc == "" {
 		return x
 	}
-	return &Sym{sort: SStr, e: "(str.++ " + tStr(x) + " " + tStr(y) + ")"}
+	segs := append(append([]interface{}{}, segmentsOf(x)...), segmentsOf(y)...)
+	// merge adjacent concrete segments
+	var m []interface{}
+	for _, sg := range segs {
+		if c, ok := sg.(string); ok && len(m) > 0 {
+			if pc, ok := m[len(m)-1].(string); ok {
+				m[len(m)-1] = pc + c
+				continue
+			}
+		}
+		m = append(m, sg)
+	}
+	parts := make([]string, len(m))
+	for k, sg := range m {
+		parts[k] = tStr(sg)
+	}
+	return &Sym{sort: SStr, e: "(str.++ " + strings.Join(parts, " ") + ")", op: "concat", a: m}
+}
+
+// segmentsOf returns the concatenation segments of a string value.
+func segmentsOf(v value) []interface{} {
+	if s, ok := v.(*Sym); ok && s.op == "concat" {
+		return s.a
+	}
+	if c, ok := v.(string); ok && c == "" {
+		return nil
+	}
+	return []interface{}{v}
+}
+
+func concatOf(segs []interface{}) value {
+	var r value = ""
+	for _, sg := range segs {
+		r = mkConcat(r, sg)
+	}
+	return r
 }
 
 // mkSubstr: s[off:off+n] assuming bounds were already checked.
@@ -597,7 +632,31 @@ func mkContains(s, sub value) value {
 	if bok && bc == "" {
 		return true
 	}
-	return &Sym{sort: SBool, e: "(str.contains " + tStr(s) + " " + tStr(sub) + ")"}
+	return &Sym{sort: SBool, e: "(str.contains " + tStr(s) + " " + tStr(sub) + ")", op: "contains", a: []interface{}{s, sub}}
+}
+
+// containsV is mkContains with syntactic simplification from recorded facts
+// (segments known not to contain a one-byte needle).
+func (p *Path) containsV(s, sub value) value {
+	if c, ok := sub.(string); ok && len(c) == 1 {
+		all := true
+		for _, sg := range segmentsOf(s) {
+			switch sg := sg.(type) {
+			case string:
+				if strings.Contains(sg, c) {
+					return true
+				}
+			case *Sym:
+				if !p.facts["nc|"+sg.e+"|"+c] {
+					all = false
+				}
+			}
+		}
+		if all {
+			return false
+		}
+	}
+	return mkContains(s, sub)
 }
 
 func mkPrefixOf(pre, s value) value {
